@@ -1,29 +1,38 @@
 """C16 — classic decoders are total and agree with each other."""
 import vlib, gen
 
-LEVEL = "proof"
+LEVEL = "other"   # part of the statement is proved, the rest is decided on the implementation (see Props file)
+FAMILY = "classic"
 
 
 def run(ctx):
     r = ctx.rng
-    ctx.rule = ("all byte strings of length <= 2 (quick) / <= 3 (thorough, decoders only) plus structured strings: valid "
+    ctx.rule = ("all byte strings of length <= 2, in the thorough tier also all 3-byte strings whose first byte is at a prefix-class boundary (18 first bytes, node_from_stream only), plus structured strings: valid "
                 "encodings mutated by truncation, trailing bytes, byte substitution with prefix-class bytes, inserted "
                 "0xfe/0xff/zero-padded size fields, non-canonical prefixes, and pure random; non-trivial = distinct "
                 "string of >= 2 bytes")
+    ctx.explanation = ("Part proof, part exploration. Theorems (Props/C16.v): node_from_stream = recursive grammar on every byte string, no panic site / fuel exhaustion reachable, tree_hash_from_stream agrees with node_from_stream on accept set, error, remaining input and hash, for any hash function. Not proved: parse_triples refinement and the canonical equivalence; they are covered by the model/implementation differential run (parse_triples is modelled) and by the implementation's cross-decoder comparison ('agree'). Memory use is outside the model.")
     ctx.proofs()
     if not ctx.build():
         return
     strings = list(gen.all_bytes_upto(2))
-    strings += [gen.gen_bytes_classic(r) for _ in range(ctx.scale(6000, 400000))]
+    strings += [gen.gen_bytes_classic(r) for _ in range(ctx.scale(6000, 40000))]
     strings += [bytes.fromhex(x) for x in ("fe00000000000161", "fc0000000001aa", "fb00000001bb", "fbffffffffff", "fc0400000000", "fe", "ff" * 50 + "80" * 51)]
     cases = []
-    for b in strings:
+    for n, b in enumerate(strings):
         h = gen.hx(b)
-        cases += ["de " + h, "th " + h, "tr " + h, "canon " + h, "tlen " + h]
+        cases += ["de " + h, "canon " + h, "tlen " + h]
+        # the hashing decoders cost ~1 ms per case in the extracted model (SHA-256 over Coq's N):
+        # in the quick tier the exhaustive 2-byte block takes every 4th string through them
+        # and strings longer than 400 bytes every 16th
+        if ctx.thorough or (len(b) != 2 and len(b) <= 400) or (len(b) == 2 and n % 4 == 0) or n % 16 == 0:
+            cases += ["th " + h, "tr " + h]
     ctx.correspond("classic", cases, nontrivial=lambda c, a, b: len(c.split()[1]) >= 4)
     if ctx.thorough:
         import itertools
-        c3 = ["de %02x%02x%02x" % t for t in itertools.product(range(256), repeat=3)]
+        # every 3-byte string whose first byte sits at a prefix-class boundary
+        firsts = (0x00, 0x01, 0x7f, 0x80, 0x81, 0xbf, 0xc0, 0xdf, 0xe0, 0xef, 0xf0, 0xf7, 0xf8, 0xfb, 0xfc, 0xfd, 0xfe, 0xff)
+        c3 = ["de %02x%02x%02x" % ((f,) + t) for f in firsts for t in itertools.product(range(256), repeat=2)]
         ctx.correspond("classic", c3, name="classic-3byte", nontrivial=lambda c, a, b: True)
     lines = ["agree " + gen.hx(b) for b in strings]
     outs = vlib.run_impl("classic", lines)
